@@ -258,7 +258,7 @@ def main():
     # a setter handed the NULL that the getter returns for a missing element stores a NULL string; NULL is not a string the text
     # can denote (the statement speaks of strings byte-for-byte), so the getter-to-setter operations stay with C07 / C09 (where the
     # store model says which of them are defined); the states they reach otherwise are those of the plain string setters
-    ops = [o for o in apibfs.ops_alphabet() if o[0] not in ('setfrom', 'setlistfrom')]
+    ops = [o for o in apibfs.ops_alphabet() if o[0] not in ('setfrom', 'setlistfrom', 'setoptfrom')]
     shards = [(s, [f], ops, dl) for s in apibfs.STARTS for f in ops]
     engine.phase(ck, 'states reached by <= 2 API calls from %d start states' % len(apibfs.STARTS), shard_api, shards, operations=len(ops))
     if not quick:
